@@ -11,7 +11,8 @@ import (
 )
 
 // C11: Op 0 = QuantileCI(N, Q, c) for every c in Cs with N <= 30 (one line per (N,Q));
-// Op 1 = QuantileCI(N, Q, Cs[0]) with N > 30 plus the NormalDist oracle values (Mu, Sigma, InvCDF(alpha), CDF at the band ends);
+// Op 1 = QuantileCI(N, Q, Cs[0]) with N > 30 plus the NormalDist oracle values (Mu, Sigma, InvCDF(alpha), CDF at the ends of the
+// rounded band and of every band of the widening loop);
 // Op 2 = QuantileCIResult{Quantile:Q, N:RN, LoOrder:Lo, HiOrder:Hi}.SampleCI(Sample{Xs, Sorted, Weights}).
 type c11Case struct {
 	Op       int   `json:"op"`
@@ -89,7 +90,7 @@ func c11Run(raw []byte) (*Line, error) {
 		res := stats.QuantileCI(c.N, q, cf)
 		l.I(11).I(1).I(c.N).F(q).F(cf)
 		if cf >= 1 {
-			l.F(0).F(0).F(0).F(0).I(0).I(0).F(0).F(0).F(0).F(0).F(0).F(0)
+			l.F(0).F(0).F(0).F(0).I(0).I(0).F(0).F(0).F(0).F(0).F(0).F(0).I(0)
 		} else {
 			// the oracle: the implementation's own normal quantile and CDF at the points the band logic uses
 			norm := stats.BinomialDist{N: c.N, P: q}.NormalApprox()
@@ -101,12 +102,31 @@ func c11Run(raw []byte) (*Line, error) {
 			r1 := 2*norm.Mu - l1
 			l0 := int(math.Floor(math.Floor(l1-0.5)+0.5)) + 1
 			r0 := int(math.Floor(math.Ceil(r1-0.5)+0.5)) + 1
-			la := l0 // the left end the band logic uses (quantileci.go:226: an empty band keeps the bucket below)
+			la := l0 // the left end of the rounded band (quantileci.go:226: an empty band keeps the bucket below)
 			if r0 <= l0 {
 				la = r0 - 1
 			}
-			ch, cl, ch1 := norm.CDF(float64(r0)-0.5), norm.CDF(float64(la)-0.5), norm.CDF(float64(r0-1)-0.5)
+			// quantileci.go:253: the band is widened while its mass is below the request and it does not cover
+			// [0, n+1]; the bands that were too light are reported with their CDF values
+			type step struct{ b, h, lo float64 }
+			var steps []step
+			lw, rw := la, r0
+			for len(steps) <= c.N+2 {
+				h, lo := norm.CDF(float64(rw)-0.5), norm.CDF(float64(lw)-0.5)
+				if h-lo < cf && (lw > 0 || rw < c.N+1) {
+					steps = append(steps, step{h - lo, h, lo})
+					lw--
+					rw++
+				} else {
+					break
+				}
+			}
+			ch, cl, ch1 := norm.CDF(float64(rw)-0.5), norm.CDF(float64(lw)-0.5), norm.CDF(float64(rw-1)-0.5)
 			l.F(norm.Mu).F(norm.Sigma).F(l1).F(r1).I(l0).I(r0).F(ch - cl).F(ch1 - cl).F(norm.CDF(l1)).F(ch).F(cl).F(ch1)
+			l.I(len(steps))
+			for _, st := range steps {
+				l.F(st.b).F(st.h).F(st.lo)
+			}
 		}
 		c11Obs(l, res)
 	case 2:
@@ -306,6 +326,55 @@ func c11Gen(tier string, rng *rand.Rand, emit func(interface{})) {
 		}
 		for i := 0; i < 3; i++ {
 			emit(c11Case{Op: 1, N: nq.n, Q: F64(nq.q), Cs: []F64{F64(float64(1+rng.Intn(1023)) / 1024)}})
+		}
+	}
+	// (b7) n > 30, band-aligned levels (the counterpart of `Auto` for n <= 30): c = the implementation's own
+	// float mass of a band [h, 2mu-h] with half-integer ends (or of that band without its top bucket, the
+	// left-biased trim), and its neighbours 1..3 ulps away.  For such c
+	// norm.InvCDF((1-c)/2) lands on (or within an ulp of) the band boundary h: the outward rounding is
+	// decided by the last bit, and "Confidence never below c" is tested where it is tightest.
+	nal := 40
+	if thorough {
+		nal = 600
+	}
+	for i := 0; i < nal; i++ {
+		n := []int{31, 32, 36, 64, 100}[rng.Intn(5)]
+		if rng.Intn(2) == 0 {
+			n = 31 + rng.Intn(400)
+		}
+		q := 0.5
+		switch rng.Intn(3) {
+		case 0: // mu a multiple of 1/2: both ends of the symmetric band are half-integers together
+			q = float64(1+rng.Intn(2*n-1)) / float64(2*n)
+		case 1: // ... and within 4 of 0 or n: one side of the band is already at (or beyond) the end of [0, n+1]
+			// when the other still has to be widened
+			k := 1 + rng.Intn(8)
+			if rng.Intn(2) == 0 {
+				k = 2*n - k
+			}
+			q = float64(k) / float64(2*n)
+		}
+		norm := stats.BinomialDist{N: n, P: q}.NormalApprox()
+		if !(norm.Sigma > 0) {
+			continue
+		}
+		w := float64(rng.Intn(int(4*norm.Sigma) + 1))
+		h := math.Floor(norm.Mu-0.25) + 0.5 - w // a half-integer below mu
+		c0 := norm.CDF(2*norm.Mu-h) - norm.CDF(h)
+		if i%2 == 1 && 2*norm.Mu-h-1 > h { // ... or of that band minus its top bucket: aBiased == confidence to the last bit
+			c0 = norm.CDF(2*norm.Mu-h-1) - norm.CDF(h)
+		}
+		for d := -2; d <= 3; d++ {
+			cf := c0
+			for j := 0; j < d; j++ {
+				cf = math.Nextafter(cf, 2)
+			}
+			for j := 0; j > d; j-- {
+				cf = math.Nextafter(cf, -1)
+			}
+			if cf > 0 && cf < 1 {
+				emit(c11Case{Op: 1, N: n, Q: F64(q), Cs: []F64{F64(cf)}})
+			}
 		}
 	}
 	// (b5) n > 30, c <= 0 (repaired by "fix: QuantileCI returns an empty or inverted interval for
